@@ -17,6 +17,7 @@ type dataOpts struct {
 	nullProb    float64
 	plantBad    bool // plant nulls at non-null positions / resolver errors (C02/C05 only)
 	unknownProb float64
+	unknownAny  bool // C02 only: a service may also not know an entity for which it would supply non-null fields
 	safeStrings bool
 	bigNumbers  bool
 	hostileIDs  bool
@@ -93,7 +94,7 @@ func genData(r *rand.Rand, fed *federation, o dataOpts) *dataGraph {
 							}
 						}
 					}
-					if owns && allNullable && r.Float64() < o.unknownProb {
+					if owns && (allNullable || o.unknownAny) && r.Float64() < o.unknownProb {
 						d.Unknown[s+"|"+tn+"|"+id] = true
 					}
 				}
